@@ -16,12 +16,14 @@ use serde_json::{Value, json};
 fn drivers<B: Bk>(run: &mut Run)
 where
     Module<B>: HalAll<B>,
+    poulpy_hal::layouts::Scratch<B>: poulpy_hal::api::TakeSlice + poulpy_hal::api::ScratchAvailable + poulpy_hal::api::ScratchFromBytes<B>,
 {
     crate::c09::fam_vec::<B>(run);
     crate::c09::fam_ring::<B>(run);
     crate::c09::fam_big::<B>(run);
     crate::c12::fam_v::<B>(run);
     crate::c12::fam_d::<B>(run);
+    crate::c12::fam_arena::<B>(run);
     crate::c11::fam_hist::<B>(run);
     crate::c07::fam_large::<B>(run);
 }
@@ -79,7 +81,7 @@ pub fn replay(run: &mut Run, d: &Value) {
 
 fn route(run: &mut Run, d: &Value) {
     let fam = d["family"].as_str().unwrap_or("").to_string();
-    if fam.starts_with("hal_") {
+    if fam.starts_with("hal_") || fam.starts_with("scratch_arena") {
         crate::c12::replay(run, d);
     } else if fam.starts_with("histories") {
         crate::c11::replay(run, d);
